@@ -133,6 +133,7 @@ def case(draw):
     if hinfo:
         # a header block of more than 4 KiB (tags, then a long licence notice): it has to be found and replaced as a whole
         hinfo["long"] = draw(st.integers(0, 5)) == 0
+        hinfo["boundary"] = draw(st.sampled_from([None, None, None, None, "\x0c", "\u2028", "\x1c"]))
         cdecl = [d for d in DECL.get(style, []) if S.has_single(style) and d.startswith(S.STYLES[style][0][:1])]
         hinfo["inner_decl"] = draw(st.sampled_from(cdecl)) if cdecl and where == "middle" and pre and draw(st.booleans()) else None
         hinfo["trail"] = draw(st.lists(st.sampled_from(["", "", " ", "  ", "\t", " \t "]), min_size=6, max_size=6))
@@ -144,6 +145,9 @@ def case(draw):
 
 def header_lines(style, form, hinfo):
     body = hinfo["cop"] + [""] + [f"SPDX-License-Identifier: {x}" for x in hinfo["lic"]]
+    if hinfo.get("boundary"):
+        # a form feed / U+2028 in the middle of a line of the block (str.splitlines() breaks lines there, the file does not)
+        body += [f"Descriptive text{hinfo['boundary']}of the header, part two."]
     if hinfo.get("long"):
         body += [""] + [f"This program is free software; you can redistribute it and/or modify it, notice line {i:02d}." for i in range(62)]
     if form == "multi" and S.has_multi(style) or not S.has_single(style):
